@@ -123,8 +123,46 @@ def enumExpect (m dir c : String) : Option String :=
   | some e => if (memberNamed schemaApi e).isSome then some s!"ok {m} {dir} {c}" else none
   | none => none
 
+/-- `c13.e2e.opt <Method>[~v] <dir> <Def> <param> <state> <others> <k>` (harness/cmd/vh/c13opt.go): a call in which the
+conditional `Vector<..>` / `bytes` parameter `param` of definition `Def` is the Go value nil (`nil`: the schema's "absent"), a
+non-nil slice of length 0 (`e`, `cap`: the schema's "present, no elements") or has one element (`one`), the other
+conditional parameters absent (`-`), present (`all`) or by the seed (`mix`). The schema's answer is `ok` (the request is
+the schema's serialisation with the bit set iff the value is not nil, the call returns the answer) - unless the parameter
+is present while the others are absent and an OBJECT shares its flag bit (nil has no serialisation): `refused`. The driver
+checks the operation against the regenerated schema table: the definition exists and has a parameter of that name that is
+conditional and of type `Vector<..>` / `bytes`; the method is a row of the method table. -/
+def optExpect (m dir dn pn st oth : String) : Option String :=
+  let mv : Option (String × Bool) := match m.splitOn "~" with
+    | [mn] => some (mn, false)
+    | [mn, "v"] => some (mn, true)
+    | _ => none
+  match mv, schemaApi.find? (fun d => d.name.toString == dn) with
+  | some (mn, viaVec), some d =>
+    match d.params.find? (fun p => p.name.toString == pn) with
+    | some p =>
+      match p.cond with
+      | some b =>
+        let isOpt := match p.ty with
+          | .vec _ _ => true
+          | .prim n => n == bBytes
+          | _ => false
+        let isObj := fun (q : Param) => match q.ty with
+          | .ref _ => true
+          | .bare _ => true
+          | _ => false
+        let dirOk := (dir == "arg" && (!viaVec || !d.isFunc)) || (dir == "res" && !d.isFunc && !viaVec && st != "cap")
+        if !isOpt || !dirOk || !["nil", "e", "cap", "one"].contains st || !["-", "all", "mix"].contains oth || !e2eKnown mn then none
+        else
+          let partners := (grpMembers d b).filter fun q => q.name != p.name
+          let refused := st != "nil" && oth == "-" && partners.any isObj
+          some ((if refused then "refused" else "ok") ++ s!" {m} {dir} {dn} {pn} {st} {oth}")
+      | none => none
+    | none => none
+  | _, _ => none
+
 def handle : List String → String
   | ["c13.report"] => report
+  | ["c13.e2e.opt", m, dir, dn, pn, st, oth, _k] => (optExpect m dir dn pn st oth).getD "bad-op"
   | ["c13.e2e.enum", m, dir, c, _k] => (enumExpect m dir c).getD "bad-op"
   | ["c13.e2e.grp", m, dir, dn, key, pat, _k] => (grpExpect m dir dn key pat).getD "bad-op"
   | ["c13.e2e", m, a, n, sh, _k] =>
